@@ -758,6 +758,9 @@ func (cg *ConsumerGroup) run() {
 		// waiting to receive on the unbuffered error channel.
 		select {
 		case <-cg.done:
+			// the CG has been closed while it still holds a member ID (e.g.
+			// after a RebalanceInProgress error): leave the group.
+			_ = cg.leaveGroup(memberID)
 			return
 		case cg.errs <- err:
 		}
